@@ -1,4 +1,5 @@
 import FlatModel.Props.C01
+import FlatModel.Model.Coded
 import FlatModel.Generated.SourceFacts
 /-! C04: string regions only ever hand out valid UTF-8 equal to a pushed string. -/
 namespace FC
@@ -125,5 +126,43 @@ theorem storage_is_private :
     stringInnerPrivate = true ∧ ∀ m ∈ stringMutators, m ∈ [Mutator.push, .reserveItems, .reserveRegions, .clear, .cloneFrom] := by
   decide
 
+end C04
+end FC
+
+namespace FC
+open Region
+
+/-- regions whose `same` relation (Rust `==` between a read item and a pushed value) is equality of
+byte strings: every catalogued byte region under a `StringRegion` -/
+class SameIsEq (R : Type) {I : outParam Type} [Region R (List UInt8) I] : Prop where
+  eq_of_same : ∀ a b : List UInt8, same (R := R) a b → a = b
+
+instance : SameIsEq (OwnedRegion UInt8) := ⟨fun _ _ h => h⟩
+instance : SameIsEq Codec.Region := ⟨fun _ _ h => h⟩
+instance : SameIsEq HuffU8 := ⟨fun _ _ h => h⟩
+instance {R I : Type} [Region R (List UInt8) I] [SameIsEq R] : SameIsEq (StringRegion R) :=
+  ⟨fun a b h => SameIsEq.eq_of_same (R := R) a b h⟩
+instance {R O : Type} [Region R (List UInt8) (Nat × Nat)] [DenseRegion R] [IdxCont O Nat] [SameIsEq R] :
+    SameIsEq (ConsecPairs R O) :=
+  ⟨fun a b h => SameIsEq.eq_of_same (R := R) a b h⟩
+instance {R I : Type} [Region R (List UInt8) I] [SameIsEq R] : SameIsEq (CollapseSequence R I) :=
+  ⟨fun a b h => by
+    rcases h with h | h
+    · exact SameIsEq.eq_of_same (R := R) a b h
+    · simp only [HasEqv.eqv, decide_eq_true_eq] at h
+      exact h.symm⟩
+
+namespace C04
+/-- **C04** for every catalogued string composition: no hypothesis on `same` left -/
+theorem string_reads_pushed' {R I : Type} [Region R (List UInt8) I] [LawfulRegion R] [SameIsEq R]
+    (P : List UInt8 → Prop) (ops : List (Op (List UInt8))) (r' : StringRegion R) (issued' : List (I × List UInt8))
+    (hP : ∀ op ∈ ops, ∀ v, op = Op.push v → P v)
+    (h : runIssued (Region.default : StringRegion R) [] ops = some (r', issued')) :
+    ∀ p ∈ issued', ∃ bs, index r' p.1 = some bs ∧ bs = p.2 ∧ P bs :=
+  string_reads_pushed (SameIsEq.eq_of_same (R := R)) P ops r' issued' hP h
+
+example : SameIsEq (StringRegion (ConsecPairs (OwnedRegion UInt8) (Capd IndexOptimized))) := inferInstance
+example : SameIsEq (StringRegion (CollapseSequence (OwnedRegion UInt8) (Nat × Nat))) := inferInstance
+example : SameIsEq (CollapseSequence (ConsecPairs (StringRegion (OwnedRegion UInt8)) (Capd IndexOptimized)) Nat) := inferInstance
 end C04
 end FC
